@@ -46,7 +46,8 @@ def llm_fn_for(path, version):
     return fn
 
 
-RAILS = {"single": (("in1",), ("out1",)), "double": (("in1", "in2"), ("out1", "out2"))}
+# "param": ONE shipped rail flow configured twice with different parameters (content safety check input/output $model=...)
+RAILS = {"single": (("in1",), ("out1",)), "double": (("in1", "in2"), ("out1", "out2")), "param": (("in1", "in2"), ("out1", "out2"))}
 _RAILSET = ["single"]
 
 
@@ -54,7 +55,7 @@ def build(version, dialog, exceptions):
     ins, outs = RAILS[_RAILSET[0]]
     if version == "2.x":
         return rw.v2_world(in_order=ins, out_order=outs, dialog=False, exceptions=exceptions, main=V2_MAIN_LOOKUP)
-    return rw.v1_world(in_order=ins, out_order=outs, dialog=dialog, exceptions=exceptions)
+    return rw.v1_world(in_order=ins, out_order=outs, dialog=dialog, exceptions=exceptions, param_rails=("both" if _RAILSET[0] == "param" else False))
 
 
 def explore(task):
@@ -73,7 +74,7 @@ def explore(task):
     fn = llm_fn_for(path, version)
     nonce = [0]
 
-    def run_conv(fault_turn, fault_idx, kind, fresh=False, second=None):
+    def run_conv(fault_turn, fault_idx, kind, fresh=False, second=None, pre=None):
         """returns list of Turn; faults are indices relative to the action log at the start of the faulted turn.
         fresh=True: from the faulted turn on the conversation is served by a NEW instance (the client brings the
         message history / the serialised state) - nothing of the earlier turns is cached there."""
@@ -92,13 +93,14 @@ def explore(task):
             elif second is not None and t == second[0]:
                 base = len(world.action_log)
                 faults = tuple(base + i for i in second[1])
+            verd_t = dict(verd, **pre) if (pre and t == 1) else verd    # a rejection in the turn before the faulted one
             if v2:
-                turn = rw.run_turn(world, [{"role": "user", "content": user_text}], verd, fn, faults=faults, fault_kind=kind, state=ctx)
+                turn = rw.run_turn(world, [{"role": "user", "content": user_text}], verd_t, fn, faults=faults, fault_kind=kind, state=ctx)
                 if turn.reply is not None:
                     ctx = turn.reply.state
             else:
                 msgs = ctx + [{"role": "user", "content": user_text}]
-                turn = rw.run_turn(world, msgs, verd, fn, faults=faults, fault_kind=kind)
+                turn = rw.run_turn(world, msgs, verd_t, fn, faults=faults, fault_kind=kind)
                 reply = turn.reply if isinstance(turn.reply, dict) else None
                 ctx = msgs + ([reply] if reply and reply.get("role") != "exception" else [])
             turn.user_text = user_text
@@ -135,11 +137,15 @@ def explore(task):
     second_plan = [((1, (i,)), (2, (j,))) for i in range(n_sites) for j in range(n_sites)] if turns >= 3 else []
     # the faulted turn (turn 2) served by a fresh instance: single faults, raise only
     plan += [(2, (i,), "raise", True) for i in range(n_sites)]
-    full_plan = [(ft, idx, kind, fresh, None) for ft, idx, kind, fresh in plan] + [(a[0], a[1], "raise", False, b) for a, b in second_plan]
-    for fault_turn, idx, kind, fresh, second in full_plan:
+    full_plan = [(ft, idx, kind, fresh, None, None) for ft, idx, kind, fresh in plan] + [(a[0], a[1], "raise", False, b, None) for a, b in second_plan]
+    if _RAILSET[0] == "param":
+        # turn 1 ends with a rejection by one of the rails, turn 2 has the fault, turn 3 is the follow-up
+        for r in ins[:1] + outs:
+            full_plan += [(2, (i,), "raise", False, None, {r: "R"}) for i in range(n_sites)]
+    for fault_turn, idx, kind, fresh, second, pre in full_plan:
         if True:
             if True:
-                conv = run_conv(fault_turn, idx, kind, fresh, second)
+                conv = run_conv(fault_turn, idx, kind, fresh, second, pre)
                 if second is not None:
                     # judge the *second* faulted turn; the follow-up is the turn after it
                     fault_turn = second[0]
@@ -147,7 +153,7 @@ def explore(task):
                 res["faults_injected"] += len(idx)
                 ft = conv[fault_turn - 1] if len(conv) >= fault_turn else conv[-1]
                 failed_sites = [(a.get("rail") or a["action"]) for a in ft.actions if a.get("fault")]
-                info = dict(info0, fault_turn=fault_turn, fault_indices=list(idx), fault_kind=kind, failed_sites=failed_sites, fresh_instance=fresh,
+                info = dict(info0, fault_turn=fault_turn, fault_indices=list(idx), fault_kind=kind, failed_sites=failed_sites, fresh_instance=fresh, pre_verdicts=pre,
                             earlier_fault=(None if second is None else {"turn": 1, "indices": list(idx)}))
                 if second is not None:
                     info["fault_indices"] = list(second[1])
@@ -176,7 +182,7 @@ def explore(task):
                     if leaked:
                         bad("unchecked-llm-text-returned", f"rail action failed ({failed_sites}) but the reply contains the LLM text {leaked[0]!r}: {text!r}")
                     else:
-                        ok_replies = {INTERNAL_ERROR} | {f"REFUSED-{r}" for r in ins + outs} | {f"EXC:BLOCKED-{r}" for r in ins + outs}
+                        ok_replies = {INTERNAL_ERROR, rw.LIB_REFUSAL} | {f"REFUSED-{r}" for r in ins + outs} | {f"EXC:BLOCKED-{r}" for r in ins + outs}
                         evs = [e.get("type") for e in reply_events(ft.reply)] if v2 else []
                         if text in ok_replies or (v2 and exceptions and any(e.endswith("RailException") for e in evs)):
                             res["faulted_turns_fail_closed"] += 1
@@ -406,6 +412,10 @@ def tasks(tier):
         out.append(("1.0", True, exc, "llm", turns, pairs, kinds))
         out.append(("1.0", True, exc, "lookup", turns, pairs, kinds))
         out.append(("2.x", False, exc, "free", turns, pairs, kinds))
+        # one shipped rail flow configured twice with different parameters (Colang 1.0)
+        out.append(("1.0", False, exc, "general", turns, tier == "thorough", ("raise",), "param"))
+        if tier == "thorough":
+            out.append(("1.0", True, exc, "lookup", turns, False, ("raise",), "param"))
         if tier == "thorough":
             out.append(("1.0", False, exc, "general", turns, pairs, kinds, "double"))
             out.append(("1.0", True, exc, "lookup", turns, pairs, kinds, "double"))
@@ -466,7 +476,7 @@ def replay(rp):
             ctx = turn.reply.state if turn.reply is not None else ctx
         else:
             msgs = ctx + [{"role": "user", "content": user_text}]
-            turn = rw.run_turn(world, msgs, {"in1": "A", "out1": "A"}, fn, faults=faults, fault_kind=rp["fault_kind"])
+            turn = rw.run_turn(world, msgs, dict({"in1": "A", "out1": "A"}, **((rp.get("pre_verdicts") or {}) if t == 1 else {})), fn, faults=faults, fault_kind=rp["fault_kind"])
             reply = turn.reply if isinstance(turn.reply, dict) else None
             ctx = msgs + ([reply] if reply and reply.get("role") != "exception" else [])
         print(f"turn {t}", "faults at", faults, "->", repr(turn.text), turn.exc, "| actions:",
